@@ -242,10 +242,19 @@ def _check(ctx: Ctx) -> None:
                       function=fe.qualname, construct=f"TIME_SIGNATURE token: emitter and parser compute `{r}` differently",
                       message=f"{got.canon()} vs {want.canon()}", file=fe.file, node=st)
         bt = eroles["cur_time_bar"]
-        g = [s_ for s_ in blk if isinstance(s_, ast.If) and src(s_.test).startswith(f"{bt} > 0") and any(isinstance(x, ast.Continue) for x in s_.body)
-             and s_.lineno < st.lineno]
-        ctx.check(bool(g), "CLK5", "tokenise ignores a time signature in mid-bar (as detokenise does)", function=fe.qualname,
+        skips = [s_ for s_ in blk if isinstance(s_, ast.If) and any(isinstance(x, ast.Continue) for x in s_.body) and s_.lineno < st.lineno
+                 and bt in {x.id for x in ast.walk(s_.test) if isinstance(x, ast.Name)}]
+        g = [s_ for s_ in skips if same_relation(relation(s_.test, Normaliser()), Sym.atom(bt), ">")]
+        ctx.check(bool(g) or bool(skips), "CLK5", "tokenise ignores a time signature in mid-bar (as detokenise does)", function=fe.qualname,
                   construct="tokenise lacks the mid-bar time-signature guard", message="", file=fe.file, node=st)
+        # ... and only then: a signature on a bar boundary (bar time 0) is always emitted, whatever else happened at that tick
+        other = [s_ for s_ in blk if isinstance(s_, ast.If) and s_.lineno < st.lineno and s_ not in g
+                 and any(isinstance(x, (ast.Continue, ast.Break, ast.Return)) for y in s_.body for x in ast.walk(y))
+                 and not any(isinstance(x, ast.Raise) for y in s_.body for x in ast.walk(y))]
+        ctx.check(not other, "CLK5", "tokenise skips a time signature only in mid-bar (`bar time > 0`), exactly like detokenise", function=fe.qualname,
+                  construct="tokenise skips a time signature under a condition other than `bar time > 0`",
+                  message=f"{[short(s_.test, 70) for s_ in other]}: a signature placed on a bar boundary would not be emitted (no token, capacity not updated), "
+                          f"so the bar grid and the total duration of the decoded piece change", file=fe.file, node=other[0] if other else st)
         sc = flds[0]
         if isinstance(sc, ast.Name):
             rej = [s_ for s_ in blk if isinstance(s_, ast.If) and "is_integer" in src(s_.test) and any(isinstance(x, ast.Raise) for x in s_.body)]
